@@ -275,3 +275,24 @@ Proof.
   - destruct D as [->|(h & I & ->)]; [exists g; split; [left; reflexivity| reflexivity] | exists h; split; [right; exact I| reflexivity]].
   - destruct E as [->|(h & I & ->)]; [exists g; split; [left; reflexivity| reflexivity] | exists h; split; [right; exact I| reflexivity]].
 Qed.
+
+(* ---- 3D segments / rays: the box of the two end points contains every point of the segment, per axis *)
+Lemma axis_between p v t : 0 <= t -> t <= 1 -> Qmin p (p + v) <= p + t * v <= Qmax p (p + v).
+Proof.
+  intros T0 T1.
+  pose proof (Q.le_min_l p (p + v)). pose proof (Q.le_min_r p (p + v)). pose proof (Q.le_max_l p (p + v)). pose proof (Q.le_max_r p (p + v)).
+  destruct (Qlt_le_dec v 0) as [N|N]; [assert (v <= t * v <= 0) by nra | assert (0 <= t * v <= v) by nra]; split; lra.
+Qed.
+
+Theorem segment3_box_contains l t : 0 <= t -> t <= 1 ->
+  v3x (Base1DIn3D_min l) <= v3x (lr3p l) + t * v3x (lr3v l) <= v3x (Base1DIn3D_max l) /\
+  v3y (Base1DIn3D_min l) <= v3y (lr3p l) + t * v3y (lr3v l) <= v3y (Base1DIn3D_max l) /\
+  v3z (Base1DIn3D_min l) <= v3z (lr3p l) + t * v3z (lr3v l) <= v3z (Base1DIn3D_max l).
+Proof.
+  intros T0 T1. unfold Base1DIn3D_min, Base1DIn3D_max. cbv zeta. cbn [v3x v3y v3z].
+  repeat split; apply axis_between; assumption.
+Qed.
+
+Theorem segment3_center_is_midpoint l :
+  Base1DIn3D_center l =3= mkV3 (v3x (lr3p l) + (1 # 2) * v3x (lr3v l)) (v3y (lr3p l) + (1 # 2) * v3y (lr3v l)) (v3z (lr3p l) + (1 # 2) * v3z (lr3v l)).
+Proof. unfold Base1DIn3D_center, v3eq. cbv zeta. cbn [v3x v3y v3z]. repeat split; field. Qed.
